@@ -344,6 +344,8 @@ func wellFormed(t []string) bool {
 		return len(t) == 5 && isInt(t[3]) && isInt(t[4])
 	case "pre":
 		return len(t) == 3 && isInt(t[1]) && isInt(t[2])
+	case "trunc":
+		return len(t) == 2 && isInt(t[1])
 	case "del":
 		return len(t) == 4 && isUint(t[3])
 	case "exp":
@@ -509,6 +511,11 @@ func (r *Runner) Op(t []string) string {
 				}
 			}
 			r.setData(&d)
+		}
+		return "ok"
+	case t[0] == "trunc" && len(t) == 2:
+		if err := r.c.TruncateShardGroups(tm(h.Atoi(t[1]))); err != nil {
+			return errEnum(err)
 		}
 		return "ok"
 	case t[0] == "pre" && len(t) == 3:
